@@ -219,7 +219,7 @@ def run(ctx, config='rel-all'):
     if val and 'Allocator::grow' in roles:
         I, res, body = val
         gfr = [e for e in res.events if e.kind == 'call' and e.callee == roles['Allocator::grow'] and len(e.stack) == 1]
-        inner = [e for e in res.events if e.kind == 'call' and len(e.stack) == 2 and e.stack[1][0] == roles['Allocator::grow'] and e.args and len(e.args) == 2
+        inner = [e for e in res.events if e.kind == 'call' and len(e.stack) >= 2 and arena.owner_fn(I, e) == roles['Allocator::grow'] and e.args and len(e.args) == 2
                  and e.args[1][0] == 'layout' and ('Option<' in ((I.db.by_path.get(e.callee) or {}).get('meta', {}).get('output') or '') and 'NonNull<u8>' in ((I.db.by_path.get(e.callee) or {}).get('meta', {}).get('output') or ''))]
         if inner:
             e = inner[0]
